@@ -144,6 +144,21 @@ PROPS = {
         phases=[P(kind="fuzz", bin="c18_monitor", runs_quick=12000, runs_thorough=3000000, workers_quick=12, workers_thorough=16, max_len=1024, rss=4000, timeout=120, detect_leaks=0)],
         floor_quick=300, floor_thorough=20000,
     ),
+    "C10": P(
+        title="one misbehaving client cannot crash, corrupt or stall the bus",
+        level="exploration",
+        technique="coverage-guided structure-aware fuzzing (libFuzzer, ASan+UBSan, assertions on) of an in-process bus with hostile raw clients, with semantic oracles inside the target: bounded-iteration liveness of a well-behaved client pair measured before the bus has digested each attack, differential stream verdict (independent wire validator vs. EOF on the hostile socket), and a visibility invariant over every frame a bystander, a service and a monitor receive",
+        level_text=("Exploration: histories of up to 4 authenticated and up to 24 unauthenticated hostile connections around a well-behaved pair P->Q, a watcher with a catch-all signal rule and a monitor. "
+                    "Hostile streams: valid messages (to the pair, broadcasts, every bus driver method on five interfaces with arbitrary or plausible arguments, guessed reply serials) mixed with 20 single-site byte corruptions, 5 structural corruptions, "
+                    "15 limit values in the two header length words, frames over max_message_size, floods of up to 121 copies, garbage, truncation followed by silence or close, written in 1-3 chunks with loop iterations in between; "
+                    "pre-authentication: empty, partial and garbage handshakes, 40 kB lines, binary messages without authentication, bursts beyond max_incomplete_connections, virtual time across auth_timeout. "
+                    "Checked after every step: the P->Q->P round trip and a driver call by P complete with the right payload within 300 loop iterations (observed maximum is recorded); the loop becomes idle; a hostile whose stream the independent validator rejects is at EOF; "
+                    "every frame the pair, the watcher and the monitor receive is valid and is from the bus, the pair, or the stamped copy of a valid hostile frame in order; unauthenticated connections are gone after the timeouts and a newcomer is then served; no block or descriptor is leaked at shutdown."),
+        level_note="'Bounded time' is measured in main-loop iterations of the in-process bus under a virtual clock, not wall-clock latency of a separate daemon process; the bus and all clients share one thread, so kernel-level scheduling effects are not explored. Flood sizes stay below the outgoing-queue limits.",
+        rule=("case = history decoded from fuzzer input. Non-trivial = an authenticated hostile wrote a stream the validator rejects and >=1 round trip ran afterwards; distinct = FNV-1a of the log with unique names renamed."),
+        phases=[P(kind="fuzz", bin="c10_hostile", runs_quick=9000, runs_thorough=2000000, workers_quick=12, workers_thorough=16, max_len=2048, rss=4000, timeout=120, detect_leaks=0)],
+        floor_quick=400, floor_thorough=30000,
+    ),
     "C11": P(
         title="framing independent of chunking",
         level="exploration",
